@@ -18,6 +18,7 @@ def run(ctx):
     ctx.do(SI.rule_eig1, only={"Hyperplane.from_reflection", "Isometry._fixpoint_data"})
     ctx.do(SH.rule_ax1, [SH.CORE, H.HYP], scope=ctx.scope(ENTRIES))
     ctx.do(SI.rule_ref1)
+    ctx.do(SI.rule_flip1)
     ctx.do(CA.rule_c2, "ProjectiveObject", scope=ctx.scope(ENTRIES))
     ctx.do(SI.rule_mean1, [SI.HYP], scope=ctx.scope(ENTRIES))
     ctx.do(SH.rule_sh5, only={"Subspace._data_with_dual", "Subspace.spacelike_complement", "Subspace.reflection_across", "Isometry.fixed_point_pair", "Isometry.fixed_point", "Isometry.axis", "Hyperplane.from_reflection", "Geodesic.from_reflection"})
